@@ -270,9 +270,14 @@ func C17CloserBeforeQueueClose() {
 	queue := make(chan *Message, 2)
 	var closerRan int32
 	how := sym.Choose("how-the-handler-ends", 4)
-	id := e.MakeHandler(func(hdr *Header) (bool, bool) { return true, how != 3 }, queue, func(err error) {
-		atomic.AddInt32(&closerRan, 1)
-	})
+	// a handler may be registered WITHOUT a close callback (ReceiveAny and the signal subscriptions do):
+	// its queue is closed all the same
+	var closer Closer = func(err error) { atomic.AddInt32(&closerRan, 1) }
+	want := int32(1)
+	if sym.Bool("no-close-callback") {
+		closer, want = nil, 0
+	}
+	id := e.MakeHandler(func(hdr *Header) (bool, bool) { return true, how != 3 }, queue, closer)
 	observed := make(chan int32, 1)
 	go func() {
 		for range queue { // ends when the queue is closed
@@ -290,8 +295,14 @@ func C17CloserBeforeQueueClose() {
 		s.inject(NewMessage(NewHeader(Reply, 1, 1, 1, 1), nil))
 	}
 	sym.Quiesce()
-	sym.Assert(<-observed == 1, "closer-order/queue-closed-before-the-close-callback-ran")
-	sym.Assert(atomic.LoadInt32(&closerRan) == 1, "closer-exactly-once")
+	select {
+	case ran := <-observed:
+		sym.Assert(ran == want, "closer-order/queue-closed-before-the-close-callback-ran")
+	default:
+		sym.Fail("closer-order/queue-never-closed")
+		return
+	}
+	sym.Assert(atomic.LoadInt32(&closerRan) == want, "closer-exactly-once")
 	sym.Reach("closer-order-done")
 }
 
